@@ -1,7 +1,206 @@
 import PydlVerif.Model.JsonUtil
+import PydlVerif.Model.YannyHist
+import PydlVerif.Driver.C01
 open Lean
 namespace PydlVerif.Driver.C03
+open PydlVerif PydlVerif.Yanny PydlVerif.Driver.C01
 
-def handle (_j : Json) : Except String Json := throw "C03: no model operations yet"
+/-! Line protocol of C03.  Floats are carried as the text the writer prints (`ioHist`).
+
+  {"op":"run","raw":b,"files":[[path,text],..],"start":path,"paths":[..],"ops":[..]}
+      ops: {"k":"write","p":path|null,"cm":{"d":stamp}|{"s":text}|{"l":[..]}}
+           {"k":"append","stamp":..,"data":[[key,{"t":text}|{"c":[[col,[cell,..]],..]}],..]}
+           {"k":"nondict"} {"k":"reread"} {"k":"unlink"} {"k":"rebind","p":path}
+      answer: {"init":state,"steps":[{"out":..,"state":..,"hyp":..},..]}
+  {"op":"parse","raw":b,"text":..}  → view
+-/
+
+/-! `repr(float(t))` for a decimal text `t` of at most 17 significant digits: the digits stay, the
+layout is Python's (`format_float_short` with code 'r': exponent form iff decpt <= -4 or decpt > 16). -/
+
+def rstripZeros (d : Str) : Str := (d.reverse.dropWhile (· == '0')).reverse
+
+def pad2 (n : Nat) : Str := if n < 10 then '0' :: fmtNat n else fmtNat n
+
+def pyRepr (t : Str) : Str :=
+  let neg := t.head? == some '-'
+  let u := match t with
+    | '-' :: r => r
+    | '+' :: r => r
+    | _ => t
+  let sg : Str := if neg then ['-'] else []
+  let l := lower u
+  if l == "nan".toList then "nan".toList
+  else if l == "inf".toList || l == "infinity".toList then sg ++ "inf".toList
+  else
+    let isE := fun (c : Char) => c == 'e' || c == 'E'
+    let mant := u.takeWhile (fun c => !isE c)
+    let ex := (u.dropWhile (fun c => !isE c)).drop 1
+    let ip := mant.takeWhile (· != '.')
+    let fp := (mant.dropWhile (· != '.')).drop 1
+    let e : Int := (parseInt ex).getD 0
+    let digits := ip ++ fp
+    let lead := (digits.takeWhile (· == '0')).length
+    let d := rstripZeros (digits.drop lead)
+    if d.isEmpty then sg ++ "0.0".toList else
+    let decpt : Int := (ip.length : Int) + e - (lead : Int)
+    if decpt ≤ -4 || decpt > 16 then
+      let x := decpt - 1
+      sg ++ d.take 1 ++ (if d.length > 1 then '.' :: d.drop 1 else []) ++
+        'e' :: (if x < 0 then '-' else '+') :: pad2 x.natAbs
+    else if decpt ≤ 0 then sg ++ '0' :: '.' :: (List.replicate decpt.natAbs '0' ++ d)
+    else if d.length ≤ decpt.toNat then sg ++ d ++ List.replicate (decpt.toNat - d.length) '0' ++ ".0".toList
+    else sg ++ d.take decpt.toNat ++ '.' :: d.drop decpt.toNat
+
+/-- executable float instance of C03: a float is the text printed for it; a binary64 value (double
+columns, and every float in raw mode) is carried in Python's layout, a float32 value as numpy
+prints it -/
+def ioHist : FloatIO Str :=
+  ⟨fun _ x => x, fun w t => if floatSyntax t then some (match w with | .f8 => pyRepr t | .f4 => t) else none⟩
+
+def tviewJ (t : TView Str) : Json :=
+  Json.mkObj [
+    ("name", sj t.name),
+    ("cols", J.ofList sj t.cols),
+    ("types", match t.types with
+      | none => Json.null
+      | some cs => J.ofList (fun c => Json.arr #[sj c.name, rtJ c.ty,
+          match c.alen with
+          | some n => J.ofNat n
+          | none => Json.null]) cs),
+    ("rows", J.ofList (J.ofList cellJ) t.rows)]
+
+def viewJ (v : View Str) : Json :=
+  Json.mkObj [
+    ("structs", J.ofList sj v.structs),
+    ("enums", J.ofList sj v.enums),
+    ("symbols", J.ofList (fun t => Json.arr #[sj t.1, J.ofList sj t.2]) v.symbols),
+    ("pairs", J.ofList (fun kv => Json.arr #[sj kv.1, sj kv.2]) v.pairs),
+    ("tables", J.ofList tviewJ v.tables)]
+
+def outJ : Out → Json
+  | .ok => Json.str "ok"
+  | .warn => Json.str "warn"
+  | .error k => Json.mkObj [("error", Json.str k)]
+
+def stateJ (paths : List Str) (s : State Str) : Json :=
+  Json.mkObj [
+    ("filename", sj s.obj.filename),
+    ("contents", sj s.obj.contents),
+    ("view", exJ viewJ s.obj.view),
+    ("files", J.ofList (fun p => Json.arr #[sj p, match s.fs p with
+      | some t => sj t
+      | none => Json.null]) paths)]
+
+def jcm (j : Json) : Except String Comments :=
+  match j.getObjVal? "d" with
+  | .ok d => do pure (.default (← js d))
+  | .error _ =>
+    match j.getObjVal? "s" with
+    | .ok s => do pure (.text (← js s))
+    | .error _ => do pure (.lines (← J.list js (← J.fld j "l")))
+
+def javal (j : Json) : Except String (AVal Str) :=
+  match j.getObjVal? "t" with
+  | .ok t => do pure (.text (← js t))
+  | .error _ => do
+    let cs ← J.list (fun c => do
+      match ← J.arr c with
+      | #[n, cells] => pure (← js n, ← J.list jcell cells)
+      | _ => throw "column: [name, cells]") (← J.fld j "c")
+    pure (.table cs)
+
+def jop (j : Json) : Except String (Op Str) := do
+  match ← J.fStr j "k" with
+  | "write" =>
+    let p ← J.fOpt js j "p"
+    pure (.write p (← jcm (← J.fld j "cm")))
+  | "append" =>
+    let data ← J.list (fun e => do
+      match ← J.arr e with
+      | #[k, v] => pure (← js k, ← javal v)
+      | _ => throw "entry: [key, value]") (← J.fld j "data")
+    pure (.append data (← js (← J.fld j "stamp")))
+  | "nondict" => pure .appendNonDict
+  | "reread" => pure .reread
+  | "unlink" => pure .unlink
+  | "rebind" => pure (.rebind (← js (← J.fld j "p")))
+  | k => throw s!"C03: unknown op kind {k}"
+
+def viewEq (a b : Except String (View Str)) : Bool :=
+  match a, b with
+  | .ok x, .ok y => decide (x = y)
+  | .error x, .error y => x == y
+  | _, _ => false
+
+def scF4 : Sc Str → Bool
+  | .flt .f4 _ => true
+  | _ => false
+
+def cellF4 : Cell Str → Bool
+  | .one v => scF4 v
+  | .many vs => vs.any scF4
+
+def loopEq (a b : Except String (LoopSt Str)) : Bool :=
+  match a, b with
+  | .ok x, .ok y => decide (x.pairs = y.pairs) && decide (x.rows = y.rows)
+  | .error x, .error y => x == y
+  | _, _ => false
+
+/-- the hypotheses of `history_content_partial`, and its conclusion, evaluated on the step actually taken:
+`front`: an accepted append left the front half of `_parse` undisturbed (FrontStable) and the text
+         so far ended its last line (RestNl);
+`content`: the document read after an accepted append = the document before + the accepted pairs and rows;
+`render`: after an accepted write the document read from the rendered text is the document read
+          before (RenderLoop), and the re-parse returns the view that was written. -/
+def hypJ (s : State Str) (op : Op Str) (r : State Str × Out) : Json :=
+  match op with
+  | .append d _ =>
+    match acceptedAppend ioHist s d with
+    | some (ps, gs) =>
+      let before := loopOf ioHist s.obj.raw s.obj.contents
+      let want : Except String (LoopSt Str) := match before with
+        | .ok doc => .ok (applyAppend doc ps gs)
+        | .error e => .error e
+      Json.mkObj [
+        ("front", Json.bool (frontStable s.obj.contents (r.1.obj.contents.drop s.obj.contents.length) &&
+                             restNl s.obj.contents)),
+        -- raw mode reads every float as binary64: a float32 datum is outside `GroupOK` there
+        ("content", if s.obj.raw && gs.any (fun g => g.2.any (fun r => r.any cellF4)) then Json.null
+                    else Json.bool (loopEq (loopOf ioHist s.obj.raw r.1.obj.contents) want))]
+    | none => Json.null
+  | .write _ _ =>
+    if r.2 == Out.ok then
+      Json.mkObj [("render", Json.bool (viewEq r.1.obj.view s.obj.view &&
+        loopEq (loopOf ioHist s.obj.raw r.1.obj.contents) (loopOf ioHist s.obj.raw s.obj.contents)))]
+    else Json.null
+  | _ => Json.null
+
+def traceJ (paths : List Str) (s : State Str) : List (Op Str) → List Json
+  | [] => []
+  | op :: ops =>
+    let r := step ioHist s op
+    Json.mkObj [("out", outJ r.2), ("state", stateJ paths r.1), ("hyp", hypJ s op r)] :: traceJ paths r.1 ops
+
+def handle (j : Json) : Except String Json := do
+  let op ← J.fStr j "op"
+  match op with
+  | "run" =>
+    let raw ← J.fBool j "raw"
+    let files ← J.list (fun e => do
+      match ← J.arr e with
+      | #[p, t] => pure (← js p, ← js t)
+      | _ => throw "file: [path, text]") (← J.fld j "files")
+    let start ← js (← J.fld j "start")
+    let paths ← J.list js (← J.fld j "paths")
+    let ops ← J.list jop (← J.fld j "ops")
+    let fs : Str → Option Str := fun p => lookupKey p files
+    let s0 : State Str := ⟨fs, load ioHist fs start raw⟩
+    pure (Json.mkObj [("init", stateJ paths s0), ("steps", Json.arr (traceJ paths s0 ops).toArray)])
+  | "parse" =>
+    let raw ← J.fBool j "raw"
+    let t ← js (← J.fld j "text")
+    pure (exJ viewJ (parseView ioHist raw t))
+  | _ => throw s!"C03: unknown op {op}"
 
 end PydlVerif.Driver.C03
